@@ -88,6 +88,25 @@ def rx_3_4(ctx, rep):
         # a different implementation of the keepends=False branch: anchor changed
         raise AnalysisError('split_lines: no literal line-break pattern found (anchor changed)')
     # conservation of the keepends=True list
+    import copy as _copy
+
+    def expand(e):
+        """the expression with single-assignment locals that are pure index arithmetic (j = i + 1) substituted"""
+        e = _copy.deepcopy(e)
+        for _ in range(2):
+            class T(ast.NodeTransformer):
+                def visit_Name(self, n):
+                    vals = [a.value for a in ast.walk(f.node) if isinstance(a, ast.Assign) and len(a.targets) == 1
+                            and isinstance(a.targets[0], ast.Name) and a.targets[0].id == n.id]
+                    if len(vals) == 1 and isinstance(vals[0], ast.BinOp) and all(
+                            isinstance(x, (ast.Name, ast.Constant, ast.BinOp, ast.operator, ast.Load)) for x in ast.walk(vals[0])):
+                        return _copy.deepcopy(vals[0])
+                    return n
+            e = T().visit(e)
+        return e
+
+    def xnorm(e):
+        return norm(expand(e))
     lst_names = set()
     for n in ast.walk(f.node):
         if isinstance(n, ast.Assign) and isinstance(n.value, ast.Call) \
@@ -100,9 +119,9 @@ def rx_3_4(ctx, rep):
             if isinstance(n, ast.Assign):
                 for t in n.targets:
                     if isinstance(t, ast.Subscript) and isinstance(t.value, ast.Name) and t.value.id == name:
-                        i = norm(t.slice)
+                        i = xnorm(t.slice)
                         want1 = '%s[%s] + %s[%s + 1]' % (name, i, name, i)
-                        ok = norm(n.value) == want1
+                        ok = xnorm(n.value) == want1
                         # must be followed by `del lst[i + 1]`
                         parent = getattr(n, '_parent', None)
                         body = None
@@ -111,7 +130,7 @@ def rx_3_4(ctx, rep):
                             if isinstance(b, list) and n in b:
                                 body = b
                         nxt = body[body.index(n) + 1] if body and body.index(n) + 1 < len(body) else None
-                        ok = ok and isinstance(nxt, ast.Delete) and norm(nxt) == 'del %s[%s + 1]' % (name, i)
+                        ok = ok and isinstance(nxt, ast.Delete) and xnorm(nxt) == 'del %s[%s + 1]' % (name, i)
                         rep.ob('RX-4', UTILS, 'split_lines', norm(n), ok,
                                'list element overwritten by something else than the concatenation of itself and '
                                'its right neighbour followed by deleting that neighbour')
@@ -127,8 +146,8 @@ def rx_3_4(ctx, rep):
                         prev = body[body.index(n) - 1] if body and body.index(n) > 0 else None
                         ok = isinstance(prev, ast.Assign) and len(prev.targets) == 1 \
                             and isinstance(prev.targets[0], ast.Subscript) and norm(prev.targets[0].value) == name \
-                            and norm(t.slice) == '%s + 1' % norm(prev.targets[0].slice) \
-                            and norm(prev.value) == '%s[%s] + %s' % (name, norm(prev.targets[0].slice), norm(t))
+                            and xnorm(t.slice) == '%s + 1' % xnorm(prev.targets[0].slice) \
+                            and xnorm(prev.value) == '%s[%s] + %s' % (name, xnorm(prev.targets[0].slice), xnorm(t))
                         rep.ob('RX-4', UTILS, 'split_lines', norm(n), ok,
                                'a piece of the text is deleted from the line list without having been merged into its left neighbour')
             elif isinstance(n, ast.Call) and isinstance(n.func, ast.Attribute) \
@@ -153,11 +172,46 @@ def rx_3_4(ctx, rep):
 # ---------------------------------------------------------------------------
 # RX-5 / RX-6 : encoding declaration
 # ---------------------------------------------------------------------------
+def detect_encoding_func(ctx):
+    """The function that decides the source encoding: the helper nested in python_bytes_to_unicode, or - when it was
+    moved out - the function python_bytes_to_unicode calls that looks for a coding declaration."""
+    mod = ctx.prog.mod(UTILS)
+    outer = mod.funcs.get('python_bytes_to_unicode')
+    if outer is None:
+        raise AnalysisError('anchor vanished: parso/utils.py:python_bytes_to_unicode')
+    folder = ctx.folder(UTILS)
+
+    def mentions_coding(f):
+        for n in walk_own(f.node):
+            if isinstance(n, ast.Constant) and isinstance(n.value, (bytes, str)):
+                v = n.value if isinstance(n.value, bytes) else n.value.encode('latin-1', 'replace')
+                if b'coding' in v and b'[' in v:
+                    return True
+            if isinstance(n, ast.Name) and isinstance(n.ctx, ast.Load):
+                try:
+                    g = folder.get(n.id)
+                except AnalysisError:
+                    continue
+                if isinstance(g, Rx):
+                    src = g.source if isinstance(g.source, bytes) else g.source.encode('latin-1', 'replace')
+                    if b'coding' in src:
+                        return True
+        return False
+    cands = list(outer.nested.values())
+    for n in walk_own(outer.node):
+        if isinstance(n, ast.Call) and isinstance(n.func, ast.Name) and n.func.id in mod.funcs:
+            cands.append(mod.funcs[n.func.id])
+    hits = [c for c in cands if mentions_coding(c)]
+    if len(hits) != 1:
+        raise AnalysisError('anchor vanished: the encoding-detection helper of python_bytes_to_unicode (%d candidates)' % len(hits))
+    return hits[0]
+
+
 def _detect_encoding_patterns(ctx):
     """-> (func, window, decl, loop).  decl / window are (method, pattern, call node); ``loop`` is None or
     (n_lines, advance_pattern) when the declaration pattern is applied at a moving offset inside
     ``for _ in range(N)`` and the offset advances over ``advance_pattern`` (line-by-line search)."""
-    f = ctx.prog.func(UTILS, 'python_bytes_to_unicode.detect_encoding')
+    f = detect_encoding_func(ctx)
     folder = ctx.folder(UTILS)
     window = decl = None
     order = []
@@ -439,10 +493,23 @@ def rx_9(ctx, rep):
     rep.ob('RX-9', TOK, '_create_token_collection', 'PseudoToken group 1', d is None,
            'group 1 of the pseudo token is not the Whitespace class', witness=d[1] if d else None)
     f = ctx.prog.func(TOK, 'tokenize_lines')
+    tfolder = ctx.folder(TOK)
+    lit_patterns = []
     for n in walk_own(f.node):
         if isinstance(n, ast.Call) and norm(n.func) in ('re.match', 're.compile', 're.fullmatch') and n.args \
                 and isinstance(n.args[0], ast.Constant) and isinstance(n.args[0].value, str):
-            pat = n.args[0].value
+            lit_patterns.append(n.args[0].value)
+        # a module-level precompiled pattern applied to a slice of the line
+        if isinstance(n, ast.Call) and isinstance(n.func, ast.Attribute) and n.func.attr in ('match', 'fullmatch') \
+                and isinstance(n.func.value, ast.Name) and n.func.value.id.startswith('_'):
+            try:
+                v = tfolder.get(n.func.value.id)
+            except AnalysisError:
+                v = None
+            if isinstance(v, Rx) and isinstance(v.source, str):
+                lit_patterns.append(v.source)
+    for pat in lit_patterns:
+        if True:
             d = rx.equivalent(rx.compile_nfa(ws + r'\Z'), rx.compile_nfa(pat))
             rep.ob('RX-9', TOK, 'tokenize_lines', 'literal pattern %r' % pat, d is None,
                    'literal whitespace class differs from Whitespace', witness=d[1] if d else None)
@@ -452,11 +519,19 @@ def rx_9(ctx, rep):
     n_strip = 0
     for g in ctx.prog.mod(TOK).funcs.values():
         for n in walk_own(g.node):
+            chars = None
             if isinstance(n, ast.Call) and isinstance(n.func, ast.Attribute) and n.func.attr in ('lstrip', 'rstrip', 'strip') \
-                    and len(n.args) == 1 and isinstance(n.args[0], ast.Constant) and isinstance(n.args[0].value, str) \
-                    and n.args[0].value.strip() != n.args[0].value and _strip_feeds_position(g, n):
+                    and len(n.args) == 1:
+                if isinstance(n.args[0], ast.Constant) and isinstance(n.args[0].value, str):
+                    chars = n.args[0].value
+                elif isinstance(n.args[0], ast.Name):
+                    try:
+                        v = tfolder.get(n.args[0].id)
+                    except AnalysisError:
+                        v = None
+                    chars = v if isinstance(v, str) else None
+            if chars is not None and chars.strip() != chars and _strip_feeds_position(g, n):
                 n_strip += 1
-                chars = n.args[0].value
                 d = rx.equivalent(nws, rx.compile_nfa('[%s]*' % ''.join(_re.escape(c) for c in sorted(set(chars)))))
                 rep.ob('RX-9', TOK, g.qual, norm(n), d is None,
                        'blank characters stripped here differ from the Whitespace class of the pseudo token',
@@ -668,6 +743,14 @@ class PrefixFlow:
                 and norm(inner.func.value) == var:
             if len(inner.args) == 1 and isinstance(inner.args[0], ast.Constant) and isinstance(inner.args[0].value, str):
                 return inner.args[0].value
+            if len(inner.args) == 1 and isinstance(inner.args[0], ast.Name):
+                # a module-level string constant
+                try:
+                    v = self.ctx.folder(TOK).get(inner.args[0].id)
+                except AnalysisError:
+                    v = None
+                if isinstance(v, str):
+                    return v
             if not inner.args:
                 return None          # argument-less lstrip: Unicode whitespace, not a tokenizer class
         return None
@@ -1006,7 +1089,7 @@ def rx_5c(ctx, rep):
                       '_get_normal_name of Lib/tokenize.py (agreement of the two pure functions on every probe name '
                       'built from the literals either of them mentions)')
     from ..fold import Closure
-    f = ctx.prog.func(UTILS, 'python_bytes_to_unicode.detect_encoding')
+    f = detect_encoding_func(ctx)
     # which function is applied to the matched name on the declaration path?
     normaliser = None
     direct = False
